@@ -334,6 +334,14 @@ class GaussConstrained(ZooModel):
         # P(x0 >= x1) under N(mu, I) is Phi((mu0 - mu1)/sqrt(2)); box truncation at > 4.7 sigma is below 1e-5
         return self._logdens + math.log(ndtr((self.mu[0] - self.mu[1]) / math.sqrt(2.0)))
 
+    def posterior_moments(self):
+        # rotate: u = (x0 - x1)/sqrt2 ~ N((mu0 - mu1)/sqrt2, 1) truncated to u >= 0, v = (x0 + x1)/sqrt2 ~ N((mu0 + mu1)/sqrt2, 1) (box truncation negligible)
+        from scipy.stats import truncnorm
+
+        mu_u, mu_v = (self.mu[0] - self.mu[1]) / math.sqrt(2.0), (self.mu[0] + self.mu[1]) / math.sqrt(2.0)
+        mu_, vu = truncnorm.stats(-mu_u, np.inf, loc=mu_u, scale=1.0, moments="mv")
+        return {"x0": (float(mu_ + mu_v) / math.sqrt(2.0), float(vu + 1.0) / 2.0), "x1": (float(mu_v - mu_) / math.sqrt(2.0), float(vu + 1.0) / 2.0)}
+
     def sample_prior(self, n, rng):
         from nessai.livepoint import numpy_array_to_live_points
 
@@ -354,6 +362,14 @@ class GaussFlat(GaussU):
     def true_log_evidence(self):
         lo, hi = self.bounds["x0"]
         return math.log(ndtr((hi - self.mu[0]) / self.sigma[0]) - ndtr((lo - self.mu[0]) / self.sigma[0])) - math.log(hi - lo)
+
+    def posterior_moments(self):
+        # x0: truncated Gaussian; every other coordinate keeps its uniform prior
+        out = {"x0": GaussU.posterior_moments(self)["x0"]}
+        for n in self.names[1:]:
+            lo, hi = self.bounds[n]
+            out[n] = (0.5 * (lo + hi), (hi - lo) ** 2 / 12.0)
+        return out
 
 
 class Bimodal(ZooModel):
